@@ -398,7 +398,7 @@ package thrift
 
 //@ func skipstr
 //@   arith int
-//@   props C02, C03, C08, C17
+//@   props C02, C03, C08, C11, C12, C17
 //@   let L = int(e - uintptr(p))
 //@   requires uintptr(p) <= e && 0 <= L && L <= avail(p) && region(p) != 0
 //@   let R = vs.StrLen(bytesat(p, L))
@@ -408,7 +408,7 @@ package thrift
 
 //@ func BinaryProtocol.Skip
 //@   arith int
-//@   props C02, C03, C08, C17
+//@   props C02, C03, C08, C11, C12, C17
 //@   let R = vs.ValLenD(b, t, 64)
 //@   ensures skipResult(R, ret0, ret1)
 //@   ensures[C03] ret1 == nil ==> 1 <= ret0 && ret0 <= len(b)
@@ -416,7 +416,7 @@ package thrift
 
 //@ func skipType
 //@   arith int
-//@   props C02, C03, C08, C17
+//@   props C02, C03, C08, C11, C12, C17
 //@   let L = int(e - uintptr(p))
 //@   let B = bytesat(p, L)
 //@   requires uintptr(p) <= e && 0 <= L && L <= avail(p) && region(p) != 0 && 0 <= maxdepth && maxdepth <= 64
